@@ -66,7 +66,7 @@ theorem C08_layout_Statement_false : ¬ C08_layout_Statement := by
 /-- … and so does the type-level statement (`struct __attribute__((packed)) { char a; _Alignas(8) int b; }`) -/
 theorem C08_types_Statement_false : ¬ C08_types_Statement := by
   intro h
-  have := h (.struct true none (.cons ⟨0, none, true⟩ (.prim .char) (.cons ⟨8, none, true⟩ (.prim .int) .nil))) (by decide)
+  have := h (.struct true none (.cons ⟨none, true⟩ .nil (.prim .char) (.cons ⟨none, true⟩ (.const 8 .nil) (.prim .int) .nil))) (by decide)
   revert this
   decide
 
